@@ -159,7 +159,8 @@ func main() {
 		*repo = "/repo"
 	}
 	a := &analyzer{byObj: map[*types.Func]*fn{}, sorters: map[string]bool{}, pureOK: map[string]bool{}, sortKeys: map[string]int{}, sortWhere: map[string][]string{},
-		sortSeen: map[*ast.CallExpr]bool{}, ourPkg: map[string]bool{}, summaries: map[*fn][]string{}, warmOK: map[string]bool{}, walking: map[*ast.FuncLit]bool{}, fnIx: map[*fn]*fnIndex{}, done: map[string]bool{}}
+		sortSeen: map[*ast.CallExpr]bool{}, ourPkg: map[string]bool{}, summaries: map[*fn][]string{}, warmOK: map[string]bool{}, walking: map[*ast.FuncLit]bool{}, fnIx: map[*fn]*fnIndex{}, done: map[string]bool{},
+		locals: map[*fn]map[types.Object]bool{}}
 	if err := json.Unmarshal(allowJSON, &a.cfg); err != nil {
 		fatal("allow.json: %v", err)
 	}
@@ -178,6 +179,7 @@ func main() {
 	}
 	a.index()
 	a.purity()
+	a.computeConfined()
 	a.run()
 	recs := a.records()
 	bad := a.verdict(recs)
